@@ -86,7 +86,7 @@ LENGTHS = [1, 23, 24, 255, 256, 257, 1000, 3000]
 
 @st.composite
 def cases(draw):
-    mtu = draw(st.sampled_from([None, 64, 65, 100, 256, 300, 1200, 9000]))
+    mtu = draw(st.one_of(st.sampled_from([None, 64, 65, 100, 256, 300, 1200, 9000]), st.integers(24, 330)))
     sends = []
     for _ in range(draw(st.integers(1, 3))):
         plen = draw(st.one_of(st.sampled_from(LENGTHS), st.integers(0, 1200)))
